@@ -7,7 +7,7 @@ use surf_n_term::automata::{DFA, NFA};
 /// The combinators are n-ary in the library; the same expression is built along three routes:
 /// 0 = binary calls, 1 = every operand wrapped in a one-alternative choice, 2 = nested seq / alt
 /// flattened into one n-ary call and every operand wrapped in a one-element sequence.
-fn build(e: &Value, map: &[u8], route: usize) -> NFA<usize> {
+fn build(e: &Value, map: &[Vec<u8>], route: usize) -> NFA<usize> {
     let wrap = |n: NFA<usize>| match route {
         1 => NFA::choice([n]),
         2 => NFA::sequence([n]),
@@ -23,8 +23,13 @@ fn build(e: &Value, map: &[u8], route: usize) -> NFA<usize> {
     }
     match e["op"].as_str().unwrap() {
         "lit" => {
-            let bytes: Vec<u8> = e["s"].as_array().unwrap().iter().map(|x| map[x.as_u64().unwrap() as usize - 1]).collect();
-            NFA::sequence(bytes.into_iter().map(|b| NFA::predicate(move |x| x == b)))
+            let bytes: Vec<u8> = e["s"].as_array().unwrap().iter().flat_map(|x| map[x.as_u64().unwrap() as usize - 1].clone()).collect();
+            if route == 3 {
+                // the string-literal combinator (symbols are characters here)
+                NFA::from(std::str::from_utf8(&bytes).expect("route 3 maps symbols to characters"))
+            } else {
+                NFA::sequence(bytes.into_iter().map(|b| NFA::predicate(move |x| x == b)))
+            }
         }
         op @ ("seq" | "alt") => {
             let mut parts = Vec::new();
@@ -62,27 +67,34 @@ fn strings(k: usize, n: usize) -> Vec<Vec<usize>> {
     out
 }
 
-fn walk(dfa: &DFA<usize>, map: &[u8], words: &[Vec<usize>]) -> (Vec<Value>, usize) {
+fn walk(dfa: &DFA<usize>, map: &[Vec<u8>], words: &[Vec<usize>]) -> (Vec<Value>, usize) {
     let mut res = Vec::new();
     let mut stray = 0usize;
     let mut seen = BTreeSet::new();
+    let alphabet: BTreeSet<u8> = map.iter().flatten().copied().collect();
     for w in words {
+        let bytes: Vec<u8> = w.iter().flat_map(|s| map[*s - 1].clone()).collect();
         let mut state = Some(dfa.start());
-        for s in w {
-            state = state.and_then(|st| dfa.transition(st, map[*s - 1]));
+        for b in &bytes {
+            state = state.and_then(|st| dfa.transition(st, *b));
         }
+        // the multi-symbol entry points must agree with stepping
+        let many = dfa.transition_many(dfa.start(), bytes.iter().copied());
+        assert!(format!("{:?}", many) == format!("{:?}", state), "transition_many() disagrees with stepping through transition()");
+        let m = dfa.matches(bytes.iter().copied());
         match state {
-            None => res.push(json!([w, 0, 0, 0, []])),
+            None => {
+                assert!(!m, "matches() accepts a string on which stepping dies");
+                res.push(json!([w, 0, 0, 0, []]))
+            }
             Some(st) => {
                 let info = dfa.info(st);
-                // `matches` must agree with the manual walk
-                let m = dfa.matches(w.iter().map(|s| map[*s - 1]));
                 assert!(m == info.is_accepting, "matches() disagrees with transition()/info()");
                 if seen.insert(format!("{:?}", st)) {
                     // totality: every byte can be asked; bytes outside the alphabet are dead
                     for b in 0..=255u8 {
                         let t = dfa.transition(st, b);
-                        if !map.contains(&b) && t.is_some() {
+                        if !alphabet.contains(&b) && t.is_some() {
                             stray += 1;
                         }
                     }
@@ -98,7 +110,8 @@ fn walk(dfa: &DFA<usize>, map: &[u8], words: &[Vec<usize>]) -> (Vec<Value>, usiz
 /// c15-replay --maxstr N : one output record per (vector, symbol mapping)
 pub fn replay(args: &[String]) {
     let maxstr = arg_u64(args, "--maxstr", 4) as usize;
-    let maps: [[u8; 2]; 3] = [[b'a', b'b'], [0x00, 0xff], [0xff, 0x7f]];
+    // symbol -> bytes: ASCII, the extreme bytes, and two-byte characters sharing their lead byte (route 3: string literals)
+    let maps: [Vec<Vec<u8>>; 4] = [vec![vec![b'a'], vec![b'b']], vec![vec![0x00], vec![0xff]], vec![vec![0xff], vec![0x7f]], vec!["é".as_bytes().to_vec(), "ü".as_bytes().to_vec()]];
     let words = strings(2, maxstr);
     let mut out = Out::new();
     let mut id = 0u64;
